@@ -145,11 +145,11 @@ Section WrapFits.
 
   Lemma scroll_wrap_fits : forall fixed allow st,
     Hf cy <= height - top ->
-    let st' := scroll_wrap fixed allow Hf tbh width height top bottom cy cx nlines st in
+    let st' := scroll_wrap_gen fixed allow Hf tbh width height top bottom cy cx nlines st in
     vs2 st' = 0 /\ hs st' = 0 /\ (0 <= vs st -> 0 <= vs st') /\ vs st' <= cy /\
     sumH Hf (vs st') (Z.to_nat (cy + 1)) <= height.
   Proof.
-    intros fixed allow st Hfit. unfold scroll_wrap.
+    intros fixed allow st Hfit. unfold scroll_wrap_gen.
     destruct (width <=? 0) eqn:Ew; [lia|].
     destruct (height - top <? Hf cy) eqn:Ec; [lia|].
     cbv zeta.
@@ -205,13 +205,13 @@ Section WrapFits.
      intra-line scroll.  [r] is the row of the cursor inside its line. *)
   Lemma scroll_wrap_tall : forall fixed allow st,
     1 <= height -> height - top < Hf cy ->
-    let st' := scroll_wrap fixed allow Hf tbh width height top bottom cy cx nlines st in
+    let st' := scroll_wrap_gen fixed allow Hf tbh width height top bottom cy cx nlines st in
     let t := tbh (if fixed then cx + 1 else cx) in
     vs st' = cy /\ hs st' = 0 /\ 0 <= vs2 st' /\
     (forall r, 0 <= r -> t - 1 <= r -> vs2 st' <= r) /\
     (forall r, r + 1 <= t -> r - vs2 st' < height).
   Proof.
-    intros fixed allow st Hh Htall. unfold scroll_wrap.
+    intros fixed allow st Hh Htall. unfold scroll_wrap_gen.
     destruct (width <=? 0) eqn:Ew; [lia|].
     destruct (height - top <? Hf cy) eqn:Ec; [|lia].
     cbv zeta. cbn [vs vs2 hs].
